@@ -472,7 +472,7 @@ func (m *ConnectMessage) encodeMessage(dst []byte) (int, error) {
 
 	// According to the 3.1 spec, it's possible that the usernameFlag is set,
 	// but the username string is missing.
-	if m.UsernameFlag() && len(m.username) > 0 {
+	if m.UsernameFlag() {
 		n, err = writeLPBytes(dst[total:], m.username)
 		total += n
 		if err != nil {
@@ -482,7 +482,7 @@ func (m *ConnectMessage) encodeMessage(dst []byte) (int, error) {
 
 	// According to the 3.1 spec, it's possible that the passwordFlag is set,
 	// but the password string is missing.
-	if m.PasswordFlag() && len(m.password) > 0 {
+	if m.PasswordFlag() {
 		n, err = writeLPBytes(dst[total:], m.password)
 		total += n
 		if err != nil {
@@ -616,14 +616,14 @@ func (m *ConnectMessage) msglen() int {
 	// Add the username length
 	// According to the 3.1 spec, it's possible that the usernameFlag is set,
 	// but the user name string is missing.
-	if m.UsernameFlag() && len(m.username) > 0 {
+	if m.UsernameFlag() {
 		total += 2 + len(m.username)
 	}
 
 	// Add the password length
 	// According to the 3.1 spec, it's possible that the passwordFlag is set,
 	// but the password string is missing.
-	if m.PasswordFlag() && len(m.password) > 0 {
+	if m.PasswordFlag() {
 		total += 2 + len(m.password)
 	}
 
